@@ -39,6 +39,8 @@ ASSUMPTIONS = [
 OPEN, END, CLOSE = ('open',), ('end',), ('close',)
 REF_GUARD = 25      # handler nesting beyond which the reference calls a case divergent
 REAL_GUARD = 60     # the real run gets more room, so it only trips on genuine runaway recursion
+REF_CALLS = 400     # total handler calls beyond which the reference calls a case divergent
+REAL_CALLS = 4000   # ... and the real run (again with more room)
 FUEL = 6000
 
 
@@ -106,6 +108,7 @@ class RealRun(object):
         self.hub = Hub()
         self.log = []
         self.depth = 0
+        self.ncalls = 0
         self.maxdepth = 0
         self.serial = 0
         self.seen = set()
@@ -127,7 +130,8 @@ class RealRun(object):
         return self.listeners[l]
 
     def call(self, l, h, message):
-        if self.depth >= REAL_GUARD:
+        self.ncalls += 1
+        if self.depth >= REAL_GUARD or self.ncalls > REAL_CALLS:
             raise Diverged()
         ev = (l, h, message.tag, self.cindex[type(message)])
         k = (l, message._serial)
@@ -230,7 +234,7 @@ def reference(case):
         return out
     subs = collections.OrderedDict()     # listener -> OrderedDict(class -> (handler, filter, priority))
     ignore = collections.Counter()
-    st = {'open': 0, 'queue': [], 'nest': 0, 'max': 0}
+    st = {'open': 0, 'queue': [], 'nest': 0, 'max': 0, 'calls': 0}
     log = []
 
     def recipients(i, c):
@@ -246,7 +250,8 @@ def reference(case):
 
     def deliver(i, c):
         for l, h in recipients(i, c):
-            if st['nest'] >= REF_GUARD:
+            st['calls'] += 1
+            if st['nest'] >= REF_GUARD or st['calls'] > REF_CALLS:
                 raise Diverged()
             log.append(('call', l, h, i, c))
             st['nest'] += 1
@@ -705,8 +710,8 @@ def stream_divergent(R):
 def run(R):
     sys.setrecursionlimit(max(sys.getrecursionlimit(), 8000))
     R.rule = ('a case = class tree + handler scripts + script; distinct = distinct wire encodings; non-trivial = the reference '
-              'semantics makes at least one delivery; cases whose reference run nests more than %d handler calls are divergent and skipped'
-              % REF_GUARD)
+              'semantics makes at least one delivery; cases whose reference run nests more than %d handler calls or makes more than %d are '
+              'divergent and skipped' % (REF_GUARD, REF_CALLS))
     R.exhaustive = True
     stream_divergent(R)
     stream_exhaustive(R)
